@@ -696,6 +696,11 @@ func (vfs *OrefaFS) Remove(name string) error {
 		return &fs.PathError{Op: op, Path: name, Err: vfs.err.NoSuchFile}
 	}
 
+	if child == parent {
+		// the root directory can't be removed.
+		return &fs.PathError{Op: op, Path: name, Err: vfs.err.InvalidArgument}
+	}
+
 	parent.mu.Lock()
 	defer parent.mu.Unlock()
 
@@ -720,6 +725,8 @@ func (vfs *OrefaFS) Remove(name string) error {
 // returns nil (no error).
 // If there is an error, it will be of type *PathError.
 func (vfs *OrefaFS) RemoveAll(path string) error {
+	const op = "unlinkat"
+
 	if path == "" {
 		// fail silently to retain compatibility with previous behavior of RemoveAll.
 		return nil
@@ -736,6 +743,11 @@ func (vfs *OrefaFS) RemoveAll(path string) error {
 
 	if !childOk || !parentOk {
 		return nil
+	}
+
+	if child == parent {
+		// the root directory can't be removed.
+		return &fs.PathError{Op: op, Path: path, Err: vfs.err.InvalidArgument}
 	}
 
 	vfs.removeAll(absPath, child)
@@ -791,7 +803,7 @@ func (vfs *OrefaFS) Rename(oldname, newname string) error {
 		return &os.LinkError{Op: op, Old: oldname, New: newname, Err: vfs.err.NotADirectory}
 	}
 
-	if oChild.mode.IsDir() && strings.HasPrefix(nAbsPath, oAbsPath+string(vfs.PathSeparator())) {
+	if oChild == oParent || oChild.mode.IsDir() && strings.HasPrefix(nAbsPath, oAbsPath+string(vfs.PathSeparator())) {
 		// a directory can't be moved into itself or one of its subdirectories.
 		return &os.LinkError{Op: op, Old: oldname, New: newname, Err: vfs.err.InvalidArgument}
 	}
